@@ -7,6 +7,7 @@ pub mod c03;
 pub mod c05;
 pub mod c09;
 pub mod search_common;
+pub mod c10;
 pub mod c11;
 pub mod c18;
 
@@ -17,6 +18,7 @@ pub fn run(id: &str, tier: Tier) -> i32 {
         "C03" => c03::run(tier),
         "C05" => c05::run(tier),
         "C09" => c09::run(tier),
+        "C10" => c10::run(tier),
         "C11" => c11::run(tier),
         "C18" => c18::run(tier),
         _ => {
@@ -33,6 +35,7 @@ pub fn replay(id: &str, case: &Value) -> i32 {
         "C03" => c03::replay(case),
         "C05" => c05::replay(case),
         "C09" => c09::replay(case),
+        "C10" => c10::replay(case),
         "C11" => c11::replay(case),
         "C18" => c18::replay(case),
         _ => {
